@@ -24,7 +24,7 @@ ID = 'C15'
 COMPONENTS = ['parser']
 THEOREMS = ['C15_precedence_chain_matches', 'C15_precedence_table', 'C15_unary_binds_tighter',
             'C15_postfix_binds_tightest', 'C15_postfix_chain', 'C15_in_super_form', 'C15_slice_layouts',
-            'C15_left_assoc', 'C15_parse_print_roundtrip_partial', 'C15_redundant_parens_partial',
+            'C15_left_assoc', 'C15_parse_print_roundtrip', 'C15_redundant_parens_equiv',
             'C15_roundtrip_nonvacuous', 'C15_native_depth_unbounded', 'C15_parse_error_at_token',
             'C15_parse_error_nonvacuous', 'C15_parse_no_panic', 'C15_span_nesting',
             'C15_parse_root_span_in_range', 'C15_wf_nonvacuous']
